@@ -186,7 +186,11 @@ def one_case(ctx, case, tag="gen"):
                 ctx.mismatch("guard wf (no empty dict in a translatable slot, unique bind-message keys) is false "
                              "on a builder output", case, "built survey", g)
             ctx.count("guard:choicesLabeled-" + str(g["choicesLabeled"]).lower())
-            if g["wf"] and not model["holds"]["ok"]:
+            ctx.count("guard:tagsPlain-" + str(g["tagsPlain"]).lower())
+            if g["tagsPlain"] != (not osm_translated_tag_suffixes(form)):
+                ctx.mismatch("F45 shape on the sheets vs guard tagsPlain on the built survey", case,
+                             sorted(osm_translated_tag_suffixes(form)), g)
+            if g["wf"] and g["tagsPlain"] and not model["holds"]["ok"]:
                 raise vcore.Infra("theorem holds_out contradicted by the driver: " + str(model["holds"]))
             if g["choicesLabeled"] != (not (unlabeled_itext_choices(form))):
                 ctx.mismatch("F6 shape on the sheet vs guard choicesLabeled on the built survey", case,
@@ -337,6 +341,7 @@ def explore(ctx, factor, bs):
         "wf_false_inputs": ctx.dist.get("guard:wf-false", 0),
         "choicesLabeled_false_inputs (F6 shape, repaired: padded)": ctx.dist.get("guard:choicesLabeled-false", 0),
         "choicesLabeled_true_inputs": ctx.dist.get("guard:choicesLabeled-true", 0),
+        "tagsPlain_false_inputs (F45 shape, open finding)": ctx.dist.get("guard:tagsPlain-false", 0),
     }
 
 
